@@ -210,8 +210,11 @@ class Batch:
         self.fps.update(o["fps"])
         self.nontrivial.update(o["nontrivial"])
         self.transitions.update(o["transitions"])
-        if len(self.samples) < 12:
-            self.samples.extend(o["samples"])
+        have = Counter(x["stratum"] for x in self.samples)
+        for x in o["samples"]:
+            if have[x["stratum"]] < 2:
+                self.samples.append(x)
+                have[x["stratum"]] += 1
         self.lengths.update(o["lengths"])
         self.faulted_runs += o["faulted_runs"]
         self.sources.update(o["sources"])
@@ -686,7 +689,7 @@ def write_evidence(tier, seed, batch, wall, workers, n_viol, klines, det_info, s
         "mutator_changed_state": s["mut_changed_state"],
         "mutator_changed_state_with_memo_or_cif_data_present": s["mut_changed_state_with_memo"],
     }
-    samples = batch.samples[:8] or [{"note": "no history in this batch was judged after a state change"}]
+    samples = batch.samples[:14] or [{"note": "no history in this batch was judged after a state change"}]
     doc = {
         "property_id": PROPERTY,
         "tier": tier,
@@ -740,7 +743,8 @@ def write_evidence(tier, seed, batch, wall, workers, n_viol, klines, det_info, s
                                    "logging (silenced)", "clock: not reached by any operation in the alphabet"],
             "not_explored": ["asynchronous interruption (KeyboardInterrupt) inside a query", "caller threads sharing one Crystal",
                              "silent on-disk corruption of a written file", "callers mutating returned arrays in place",
-                             "surfaces, voids, powder patterns (0.3-12 s per call)", "injected failures inside mutators"],
+                             "Hirshfeld / promolecule isosurfaces (raise ImportError in this environment: matplotlib.cm.get_cmap is gone) and functional_group_* (need graph_tool)",
+                             "injected failures inside mutators", "compiled .pyx kernels cannot be rebuilt here (no Cython): they run as built in-tree"],
         },
         "assumptions": [
             "the reference model is chmpy's own Crystal constructed fresh from a deep copy of (unit_cell, space_group, asymmetric_unit): the check decides history-independence, not absolute correctness of the fresh answer",
